@@ -259,11 +259,12 @@ static void queue_ops(int me, int slot)
 	else if (k < 66) it = new_item(slot, IK_APPLY, B_NONE, 3, 0);
 	else if (k < 74) { if (g_after && slot == 2) it = new_item(slot, IK_AFTER, B_NONE, 1, 0); else it = new_item(slot, IK_ASYNC, B_SLEEP, 1, 0); }
 	else if (k < 82) {
-		vrt_api("Susp", o->idx, 0, 0, 0);
-		dispatch_suspend(o->ptr); rest();
+		/* now and then nested deeper than the inline suspend count holds (63): the suspension's +2 must survive the
+		 * moment the inline count is back to 0 while the side count still holds the rest (seed C17-5) */
+		int depth = (vrt_rand() % 9 == 0) ? 64 + (int)(vrt_rand() % 8) : 1;
+		for (int d = 0; d < depth; d++) { vrt_api("Susp", o->idx, 0, 0, 0); dispatch_suspend(o->ptr); rest(); }
 		usleep((unsigned)(vrt_rand() % 300));
-		vrt_api("Res", o->idx, 0, 0, 0);
-		dispatch_resume(o->ptr); rest();
+		for (int d = 0; d < depth; d++) { vrt_api("Res", o->idx, 0, 0, 0); dispatch_resume(o->ptr); rest(); }
 	} else if (k < 90) {
 		if (me == 0 && slot == 2) {
 			long id = 1 + (long)(vrt_rand() % (MAXCTX - 1));
